@@ -9,6 +9,7 @@ ap = argparse.ArgumentParser()
 ap.add_argument("-j", type=int, default=5)
 ap.add_argument("--only", default="")
 ap.add_argument("--props", default="")
+ap.add_argument("--targets-only", action="store_true", help="run only the target property of each seeded change")
 ap.add_argument("--dir", default="seeded", help="seeded (every change has a target property) or benign (no check may alarm)")
 a = ap.parse_args()
 ROOT = "/tmp/xw"
@@ -38,7 +39,7 @@ def worker(i):
         subprocess.run(["git", "-C", wt, "checkout", "-q", "--", "."], check=True)
         subprocess.run(["git", "-C", wt, "apply", f"/verif/{a.dir}/{s}/patch.diff"], check=True)
         target = json.load(open(f"/verif/{a.dir}/{s}/meta.json"))["property"] if os.path.exists(f"/verif/{a.dir}/{s}/meta.json") else "-"
-        for p in props:
+        for p in ([target] if a.targets_only and target in props else props):
             r = subprocess.run([os.environ.get("XCHECK", "./check"), p, "--no-evidence"], cwd="/verif", env=env, capture_output=True, text=True)
             lines = [l for l in r.stdout.split("\n") if l.startswith(("VIOLATION", "UNDECIDED", "KNOWN"))]
             what = ""
